@@ -383,6 +383,7 @@ func runExec(seed int64, r *rand.Rand, stay int, replay []uint8) runResult {
 		tokF, tokN    []byte // every task works with its own token identifiers
 		created       uint64
 		frozen        bool
+		paused        bool
 		kv            map[string][]byte
 	}
 	shortIDs := r.Intn(3) == 0
@@ -422,7 +423,7 @@ func runExec(seed int64, r *rand.Rand, stay int, replay []uint8) runResult {
 	recs := make([][]execRec, nexec)
 	plans := make([][]string, nexec)
 	kindsAll := []string{"transfercall", "transfercall", "nftlocal", "nftlocal", "skv", "create", "adduri", "updattr", "mint", "lburn", "burn", "transfer", "nfttransfer", "multi", "addqty", "nftburn", "owner", "claim", "username", "freeze", "freeze", "roles",
-		"plainnp", "nftnp", "multinp", "multicall", "multicall", "arrive"}
+		"plainnp", "nftnp", "multinp", "multicall", "multicall", "arrive", "pause"}
 	for t := 0; t < nexec; t++ {
 		n := 2 + r.Intn(8)
 		plans[t] = append(plans[t], "create")
@@ -525,11 +526,11 @@ func runExec(seed int64, r *rand.Rand, stay int, replay []uint8) runResult {
 	var doOpUnfrozen func(t int, op string, ar *rand.Rand) (execRec, bool)
 	doOp := func(t int, op string, ar *rand.Rand) (execRec, bool) {
 		st := ts[t]
-		if st.frozen {
+		if st.frozen || st.paused {
 			switch op {
 			case "mint", "lburn", "burn", "transfer", "transfercall", "multi", "multicall", "arrive":
 				if ar.Intn(3) != 0 {
-					return execRec{}, false // the fungible entry is frozen: balance operations would be refused
+					return execRec{}, false // the fungible entry is frozen or the token paused: balance operations would be refused
 				}
 				// ... and one time in three they are tried: they must be refused whatever runs beside them
 				rec, ok := doOpUnfrozen(t, op, ar)
@@ -563,6 +564,25 @@ func runExec(seed int64, r *rand.Rand, stay int, replay []uint8) runResult {
 				}
 				if !bytes.Equal(otherBefore, u.storage[other]) {
 					return fmt.Sprintf("%s changed the entry of another token", fn)
+				}
+				return ""
+			}), true
+		case "pause":
+			// the task's own fungible token is paused / un-paused in the task's own copy of the system account
+			fn := "ESDTPause"
+			if st.paused {
+				fn = "ESDTUnPause"
+			}
+			st.paused = !st.paused
+			want := st.paused
+			sys := acc.stores[t].get(vmcommon.SystemAccountAddress)
+			key := "ELRONDesdt" + string(tokF)
+			return control(t, fn, vmcommon.SystemAccountAddress, [][]byte{tokF}, sys, func() string {
+				if got := builtInFunctions.ESDTGlobalMetadataFromBytes(sys.storage[key]).Paused; got != want {
+					return fmt.Sprintf("paused flag of %s is %v after %s", tokF, got, fn)
+				}
+				if len(sys.storage) > 1 {
+					return fmt.Sprintf("%s wrote %d keys of the system account", fn, len(sys.storage))
 				}
 				return ""
 			}), true
